@@ -74,6 +74,9 @@ inductive Sp where
   | scls (d : FieldDecl) (len : Nat)
   /-- two-element tuples: `tuple[X, Y]` / `typing.Tuple[X, Y]` / `Tuple[X, Y]` / `Tuple(items=[X, Y])` -/
   | tup585 (x y : Sp) | tupTyping (x y : Sp) | tupSub (x y : Sp) | tupCall (x y : Sp)
+  /-- `X | 529` / `X | "abc"`: a Field on the left, a literal value on the right (documented: "a: Integer | Foo | str | 529");
+      `len` = length of the literal's source text -/
+  | pipeLit (x : Sp) (v : PyVal) (len : Nat)
 deriving Repr, Inhabited
 
 /-! ### Python objects that such expressions evaluate to -/
@@ -425,6 +428,12 @@ def ev (tm : TypeMap) : Sp → R Obj
     bindE (ev tm x) fun ox => bindE (ev tm y) fun oy =>
     bindE (tupleItem ox) fun dx => bindE (tupleItem oy) fun dy =>
     bindE (mkItems .tuple [dx, dy]) fun r => .ok (.finst r)
+  /- `_or_fields(first, other)` with `other` a str / int / float / bool value: `AnyOf[first, Enum(values=[other])]`;
+     every non-field left operand refuses a plain value (`int | 5`, `None | 5`, `Optional[int] | 5`: TypeError) -/
+  | .pipeLit x v _ =>
+    bindE (ev tm x) fun ox =>
+    if isFieldObj ox then bindE (getItem tm ox) fun dx => .ok (.finst (.anyOf [dx, .enumLit [v]]))
+    else .error .typeErr
 termination_by structural s => s
 
 /-! ### length of the annotation text (what `from __future__ import annotations` stores) -/
@@ -443,6 +452,7 @@ def Coll.clsLen : Coll → Nat
 
 def isPipe : Sp → Bool
   | .pipe _ _ => true
+  | .pipeLit _ _ _ => true
   | _ => false
 
 def annLen : Sp → Nat
@@ -473,6 +483,7 @@ def annLen : Sp → Nat
   | .tupTyping x y => 16 + annLen x + annLen y
   | .tupSub x y => 9 + annLen x + annLen y
   | .tupCall x y => 17 + annLen x + annLen y
+  | .pipeLit x _ n => annLen x + 3 + n
 
 /-! ### field and class level -/
 
@@ -565,6 +576,9 @@ def annLenField (fs : FieldSp) : Nat :=
   | .kwF _ n => annLen fs.ty + kwExtra fs.ty n
   | _ => annLen fs.ty
 
+/-- defaults that can be written as `default=`: the scalars, and `None` (= the parameter's own default: no default) -/
+def kwDefault (v : PyVal) : Bool := scalarDefault v || v.isNone
+
 /-- `Field.__init__(default=v)`: only a truthy default is validated here -/
 def applyKw (O : Oracles) (o : Obj) (v : PyVal) : R Obj :=
   match o with
@@ -582,7 +596,7 @@ def evTop (O : Oracles) (tm : TypeMap) (fs : FieldSp) : R Obj :=
   bindE (ev tm fs.ty) fun o =>
   match fs.dflt with
   | .kw v _ =>
-    if !kwAllowed fs.ty || !scalarDefault v then .error (.other "not-expressible") else applyKw O o v
+    if !kwAllowed fs.ty || !kwDefault v then .error (.other "not-expressible") else applyKw O o v
   | .kwF p _ => if !kwAllowed fs.ty then .error (.other "not-expressible") else applyKwF O o p
   | _ => .ok o
 
@@ -600,7 +614,8 @@ def hasNoneOpt : FieldDecl → Bool
 def finishField (O : Oracles) (d : FieldDecl) (opt : Bool) (dflt : DefaultSp) : R FieldRes :=
   match dflt with
   | .none => .ok (.field d (!opt) none)
-  | .kw v _ => .ok (.field d false (some v))
+  /- `default=None` is no default at all (`_default is not None` is the test everywhere) -/
+  | .kw v _ => if v.isNone then .ok (.field d (!opt) none) else .ok (.field d false (some v))
   | .kwF _ _ => .ok (.field d false (some factoryTag))
   /- a factory given with `=`: its product is validated; the factory itself is kept as `_default` on every
      path (also when the annotation converts to a Field class: `the_type(default=default)`, typedpy d1c0173) -/
@@ -622,7 +637,7 @@ def annField (O : Oracles) (tm : TypeMap) (fs : FieldSp) (o : Obj) : R FieldRes 
 /-- a field object found in the class body (its `default=`, if any, was handled by `applyKw`) -/
 def finishFieldNoCheck (d : FieldDecl) (opt : Bool) (dflt : DefaultSp) : R FieldRes :=
   match dflt with
-  | .kw v _ => .ok (.field d false (some v))
+  | .kw v _ => if v.isNone then .ok (.field d (!opt) none) else .ok (.field d false (some v))
   | .kwF _ _ => .ok (.field d false (some factoryTag))
   | _ => .ok (.field d (!opt) none)
 
